@@ -10,7 +10,7 @@
    every amount of fuel.
 
    `fixed` selects the comment loop of the lexer: false = the code as found (at the end of the
-   input `advanceChar` fails and the loop spins), true = fixes/C03-regex-comment-hang.patch (an
+   input `advanceChar` fails and the loop spins), true = fixes/C03-regex-unterminated-comment.patch (an
    ERROR token is returned).
 
    Results: RDiag (diagnostics were reported) | ROk tree.  There is no crash outcome: the model
@@ -51,11 +51,13 @@ Fixpoint scan_digits (s : list Z) : list Z * list Z :=
 Fixpoint scan_quoted (s : list Z) : option (list Z) * list Z :=
   match s with
   | [] => (None, [])
-  | 92 :: r => match r with
-               | 69 :: r' => (Some [], r')
-               | _ => (None, r)        (* "expected end of quoted text": the `\` is consumed *)
-               end
-  | c :: r => let '(o, r') := scan_quoted r in (match o with Some t => Some (c :: t) | None => None end, r')
+  | c :: r =>
+      if c =? 92 then
+        match r with
+        | c2 :: r' => if c2 =? 69 then (Some [], r') else (None, r)   (* "expected end of quoted text": the `\` is consumed *)
+        | [] => (None, r)
+        end
+      else let '(o, r') := scan_quoted r in (match o with Some t => Some (c :: t) | None => None end, r')
   end.
 
 Definition meta_chars : list Z := [46; 63; 45; 43; 42; 94; 92; 124; 36; 40; 41; 91; 93; 123; 125; 32].
@@ -91,8 +93,9 @@ Definition punct_tok (c : Z) : option tok :=
 Definition lex_escape (s : list Z) : tok * list Z :=
   match s with
   | [] => (TError, [])                                   (* trailing backslash *)
-  | 81 :: r => let '(o, r') := scan_quoted r in (match o with Some t => TQuoted t | None => TError end, r')
   | c :: r =>
+      if c =? 81 then let '(o, r') := scan_quoted r in (match o with Some t => TQuoted t | None => TError end, r')
+      else
       match escape_tok c with
       | Some t => (t, r)
       | None =>
@@ -111,10 +114,15 @@ Fixpoint lex_comment (fixed : bool) (fuel : nat) (s : list Z) : option (option (
   | O => None
   | S f =>
       match s with
-      | 41 :: r => Some (Some r)
-      | _ :: r => lex_comment fixed f r
+      | c :: r => if c =? 41 then Some (Some r) else lex_comment fixed f r
       | [] => if fixed then Some None else lex_comment fixed f []     (* advanceChar fails: spins *)
       end
+  end.
+
+Definition starts_comment (r : list Z) : option (list Z) :=
+  match r with
+  | c2 :: c3 :: r' => if (c2 =? 63) && (c3 =? 35) then Some r' else None
+  | _ => None
   end.
 
 (* Lex: all tokens up to END_OF_FILE *)
@@ -124,19 +132,23 @@ Fixpoint lex (fixed : bool) (fuel : nat) (s : list Z) : option (list tok) :=
   | S f =>
       match s with
       | [] => Some []
-      | 40 :: 63 :: 35 :: r =>
-          match lex_comment fixed f r with
-          | None => None
-          | Some None => Some [TError]
-          | Some (Some r') => lex fixed f r'
-          end
-      | 40 :: r => match lex fixed f r with Some ts => Some (TLParen :: ts) | None => None end
-      | 92 :: r =>
-          let '(t, r') := lex_escape r in
-          match lex fixed f r' with Some ts => Some (t :: ts) | None => None end
       | c :: r =>
-          let t := match punct_tok c with Some t => t | None => TChar c end in
-          match lex fixed f r with Some ts => Some (t :: ts) | None => None end
+          if c =? 40 then
+            match starts_comment r with
+            | Some r0 =>
+                match lex_comment fixed f r0 with
+                | None => None
+                | Some None => Some [TError]
+                | Some (Some r') => lex fixed f r'
+                end
+            | None => match lex fixed f r with Some ts => Some (TLParen :: ts) | None => None end
+            end
+          else if c =? 92 then
+            let '(t, r') := lex_escape r in
+            match lex fixed f r' with Some ts => Some (t :: ts) | None => None end
+          else
+            let t := match punct_tok c with Some t => t | None => TChar c end in
+            match lex fixed f r with Some ts => Some (t :: ts) | None => None end
       end
   end.
 
@@ -256,67 +268,79 @@ Fixpoint flags_of (disable : bool) (st un : flags) (l : list tok) : flags * flag
   | _ :: r => let '(a, b, _) := flags_of disable st un r in (a, b, false)
   end.
 
+(* `(?flags` ... : consumeFlags up to `)` or `:` *)
+Definition p_group_flags (r : list tok) : gkind * bool * list tok * bool :=
+  let '(a, b) := scan_until (fun t => is_rparen t || is_colon t) r in
+  let '(st, un, ok) := flags_of false no_flags no_flags a in
+  match b with
+  | TColon :: r2 => (GFlags st un, true, r2, negb ok)
+  | _ => (GFlags st un, false, b, negb ok)
+  end.
+
+Definition p_group_name (stop : tok -> bool) (got0 : bool) (r1 : list tok) : gkind * bool * list tok * bool :=
+  let '(a, b) := scan_until (fun t => stop t || is_rparen t) r1 in
+  let '(name, ok) := chars_of is_letter a in
+  let '(r2, got) := consume stop b in
+  (GNamed name, true, r2, negb (got0 && ok && got && negb (Nat.eqb (length name) 0))).
+
 (* the header of a group, after `(`: kind, whether content follows, rest, error *)
 Definition p_group_header (ts : list tok) : gkind * bool * list tok * bool :=
   match ts with
   | TQuestion :: r =>
       match r with
       | TColon :: r1 => (GNonCapture, true, r1, false)
-      | TLAngle :: r1 =>
-          let '(a, b) := scan_until (fun t => is_rangle t || is_rparen t) r1 in
-          let '(name, ok) := chars_of is_letter a in
-          let '(r2, got) := consume is_rangle b in
-          (GNamed name, true, r2, negb (ok && got && negb (Nat.eqb (length name) 0)))
-      | TSQuote :: r1 =>
-          let '(a, b) := scan_until (fun t => is_squote t || is_rparen t) r1 in
-          let '(name, ok) := chars_of is_letter a in
-          let '(r2, got) := consume is_squote b in
-          (GNamed name, true, r2, negb (ok && got && negb (Nat.eqb (length name) 0)))
-      | TChar 80 :: r1 =>
-          let '(r1', got0) := consume is_langle r1 in
-          let '(a, b) := scan_until (fun t => is_rangle t || is_rparen t) r1' in
-          let '(name, ok) := chars_of is_letter a in
-          let '(r2, got) := consume is_rangle b in
-          (GNamed name, true, r2, negb (got0 && ok && got && negb (Nat.eqb (length name) 0)))
-      | _ =>
-          let '(a, b) := scan_until (fun t => is_rparen t || is_colon t) r in
-          let '(st, un, ok) := flags_of false no_flags no_flags a in
-          match b with
-          | TColon :: r2 => (GFlags st un, true, r2, negb ok)
-          | _ => (GFlags st un, false, b, negb ok)
-          end
+      | TLAngle :: r1 => p_group_name is_rangle true r1
+      | TSQuote :: r1 => p_group_name is_squote true r1
+      | TChar cP :: r1 =>
+          if cP =? 80 then let '(r1', got0) := consume is_langle r1 in p_group_name is_rangle got0 r1'
+          else p_group_flags r
+      | _ => p_group_flags r
       end
   | _ => (GCapture, true, ts, false)
   end.
 
-(* the quantifier suffix after a primary; `{`: consumeDigits etc. *)
+(* consumeDigits(stop...) *)
+Definition p_digits (stop : tok -> bool) (ts : list tok) : list Z * list tok * bool :=
+  let '(a, b) := scan_until stop ts in
+  let '(ds, ok) := chars_of is_digit a in (ds, b, ok).
+
+Definition stop_rb (t : tok) : bool := is_rbrace t.
+Definition stop_rb_comma (t : tok) : bool := is_rbrace t || match t with TComma => true | _ => false end.
+
+(* after `{min,` : nothing when `}` follows, else consumeDigits(RBRACE) *)
+Definition p_braces_max (mn : list Z) (ok1 : bool) (b1 : list tok) : (bool * list Z * list Z) * list tok * bool :=
+  match b1 with
+  | TRBrace :: _ => ((true, mn, []), b1, ok1)
+  | _ => let '(mx, b2, ok2) := p_digits stop_rb b1 in ((true, mn, mx), b2, ok1 && ok2)
+  end.
+
+(* `{` not followed by `,` : min = consumeDigits(RBRACE, COMMA), then an optional `,max` *)
+Definition p_braces_min (r : list tok) : (bool * list Z * list Z) * list tok * bool :=
+  let '(mn, b, ok1) := p_digits stop_rb_comma r in
+  match b with
+  | TComma :: b1 => p_braces_max mn ok1 b1
+  | _ => ((false, mn, []), b, ok1)
+  end.
+
+Definition p_braces (r : list tok) : (bool * list Z * list Z) * list tok * bool :=
+  match r with
+  | TComma :: r' => let '(mx, b, ok) := p_digits stop_rb r' in ((true, [], mx), b, ok)
+  | _ => p_braces_min r
+  end.
+
+Definition p_lazy (ts : list tok) : bool * list tok :=
+  match ts with TQuestion :: r => (true, r) | _ => (false, ts) end.
+
+(* the quantifier suffix after a primary *)
 Definition p_quant_suffix (r0 : re) (ts : list tok) : re * list tok * bool :=
-  let lazy (ts : list tok) := match ts with TQuestion :: r => (true, r) | _ => (false, ts) end in
   match ts with
-  | TPlus :: r => let '(alt, r') := lazy r in (RQuant QPlus alt r0, r', false)
-  | TStar :: r => let '(alt, r') := lazy r in (RQuant QStar alt r0, r', false)
-  | TQuestion :: r => let '(alt, r') := lazy r in (RQuant QOpt alt r0, r', false)
+  | TPlus :: r => let '(alt, r') := p_lazy r in (RQuant QPlus alt r0, r', false)
+  | TStar :: r => let '(alt, r') := p_lazy r in (RQuant QStar alt r0, r', false)
+  | TQuestion :: r => let '(alt, r') := p_lazy r in (RQuant QOpt alt r0, r', false)
   | TLBrace :: r =>
-      let stop1 := fun t => is_rbrace t in
-      let stop2 := fun t => is_rbrace t || match t with TComma => true | _ => false end in
-      let '(comma, mn, mx, r1, ok) :=
-        match r with
-        | TComma :: r' =>
-            let '(a, b) := scan_until stop1 r' in
-            let '(mx, ok) := chars_of is_digit a in (true, [], mx, b, ok)
-        | _ =>
-            let '(a, b) := scan_until stop2 r in
-            let '(mn, ok1) := chars_of is_digit a in
-            match b with
-            | TComma :: TRBrace :: _ => (true, mn, [], tl b, ok1)
-            | TComma :: b' =>
-                let '(a2, b2) := scan_until stop1 b' in
-                let '(mx, ok2) := chars_of is_digit a2 in (true, mn, mx, b2, ok1 && ok2)
-            | _ => (false, mn, [], b, ok1)
-            end
-        end in
+      let '((comma, mn, mx), r1, ok) := p_braces r in
       let '(r2, got) := consume is_rbrace r1 in
-      let '(alt, r3) := lazy r2 in
+      let '(alt, r3) := p_lazy r2 in
       if comma then (RQuant (QNM mn mx) alt r0, r3, negb (ok && got))
       else (RQuant (QN mn) alt r0, r3, negb (ok && got && negb (Nat.eqb (length mn) 0)))
   | _ => (r0, ts, false)
